@@ -707,8 +707,15 @@ def rule_F2h(ctx):
     if phi is not None and isinstance(phi, ast.Call) and norm(phi.func) == "TimePoint" and phi.args \
             and isinstance(phi.args[0], ast.Name):
         tn = phi.args[0].id
-        forms = {norm(v) for v in defs.get(tn, [])}
-        hi_ok = any("inf" in x for x in forms) and any(x.endswith("[i + 1]") for x in forms) and len(forms) == 2
+        vals = defs.get(tn, [])
+        # the index of the change just written: a name defined by searchsorted(<quarter times>, t)
+        idx_names = {k for k, vs in defs.items() for v in vs if isinstance(v, ast.Call) and norm(v.func) in ("np.searchsorted", "numpy.searchsorted")
+                     and len(v.args) >= 2 and norm(v.args[1]) == tparam}
+        has_inf = any(any(isinstance(x, ast.Attribute) and x.attr == "inf" for x in ast.walk(v)) for v in vals)
+        has_next = any(isinstance(v, ast.Subscript) and isinstance(v.slice, ast.BinOp) and isinstance(v.slice.op, ast.Add)
+                       and isinstance(v.slice.left, ast.Name) and v.slice.left.id in idx_names
+                       and isinstance(v.slice.right, ast.Constant) and v.slice.right.value == 1 for v in vals)
+        hi_ok = has_inf and has_next and len(vals) == 2
     ctx.check(lo_ok, "F2h", f"{s.qname}:slice-lower", func=s, node=lp, construct="quarter-propagation:lower",
               msg=f"the propagation must start at searchsorted(points, TimePoint({tparam})) (left side): the new "
                   f"duration is in force from t on, t included")
